@@ -167,6 +167,9 @@ impl ClientLoop {
 //@|        r matches Err(SessionError::Disabled) ==> !final(self).enabled,
 //@|        cmd matches Command::Setting(s) ==> final(self).tx_id == old(self).tx_id && final(io).sent == old(io).sent
 //@|            && (r is Err <==> !final(self).enabled) && (r is Err ==> r == Err::<(), SessionError>(SessionError::Disabled)),
+//@|        // [C11] the transaction id advances by exactly one for a request and not at all for anything else
+//@|        cmd is Request ==> final(self).tx_id.v() as int == (old(self).tx_id.v() as int + 1) % 65536,
+//@|        cmd is Shutdown ==> final(self).tx_id == old(self).tx_id,
 
 // [C13] while not connected: a request fails immediately with NoConnection instead of queueing
 //@fn rodbus/src/client/task.rs | ClientLoop::fail_next_request | tags=C10,C13 | r10
@@ -202,12 +205,18 @@ impl ClientLoop {
 //@|    requires old(self).wf(),
 //@|    ensures final(self).wf(), final(self).writer.is_tcp() == old(self).writer.is_tcp(),
 //@|        r matches Err(SessionError::Disabled) ==> !final(self).enabled,
+//@|        // [C11] one poll takes at most one request from the queue: the id is unchanged or advanced by one
+//@|        final(self).tx_id == old(self).tx_id || final(self).tx_id.v() as int == (old(self).tx_id.v() as int + 1) % 65536,
 //@entry| broadcast use crate::client::message::axiom_queue_inv;
 
 // [C12] the count is cleared at session start
-//@fn rodbus/src/client/task.rs | ClientLoop::run | tags=C12,C13 | attr=#[verifier::exec_allows_no_decreases_clause]
+//@fn rodbus/src/client/task.rs | ClientLoop::run | tags=C11,C12,C13 | attr=#[verifier::exec_allows_no_decreases_clause]
 //@|    requires old(self).wf(),
 //@|    ensures final(self).wf(), final(self).writer.is_tcp() == old(self).writer.is_tcp(),
 //@|        r is Disabled ==> !final(self).enabled,      // [C13] Disabled is reported only after a disable
 //@loop 0|            invariant self.wf(), self.writer.is_tcp() == old(self).writer.is_tcp(),
+//@beforeloop 0| // [C11] a new session continues with the transaction id the previous one left (the id belongs to the queue, not to the connection);
+//@beforeloop 0| // [C12] the consecutive-timeout count starts at zero in every session
+//@beforeloop 0| assert(self.tx_id == old(self).tx_id);
+//@beforeloop 0| assert(self.timeout_counter.count() == 0 && self.timeout_counter.limit() == old(self).timeout_counter.limit());
 }
